@@ -5,6 +5,7 @@ with the rounding and clamping of the portable kernels (C10, C18).
     src/convolution/u8x4/{sse4,avx2}.rs          vs  u8x4/native.rs
     src/convolution/u8x3/{sse4,avx2}.rs          vs  u8x3/native.rs
     src/convolution/u8x2/{sse4,avx2}.rs          vs  u8x2/native.rs
+    src/convolution/u8x1/{sse4,avx2}.rs          vs  u8x1/native.rs
 
 Method (docs/BUILDER_K9.md): Kani executes the REAL kernel text; the x86 instructions it cannot run are replaced (kani::stub)
 by the instruction models of contracts/simd_models.rs (assumed contract on the hardware, cross-checked on the host CPU by
@@ -399,6 +400,12 @@ HORIZ = dict(
               four=[(17, 15), (23, 9), (29, 3), (26, 6), (31, 1), HUGE32],
               one=[(17, 15), (23, 9), (30, 2), (26, 6), (31, 1), HUGE32, (1, 31), (8, 24)],
               one_per=1),
+    # u8x1 (run-time precision): SSE4.1 8 taps per step, then ONE step of 4, then single taps in scalar code (<= 3); AVX2 16 per step, then ONE step of 8, then
+    # single taps (<= 7); the lanes are summed horizontally (AVX2: 1/8 of the rounding constant per lane).  Loads of 16 / 8 / 4 bytes = pixels.
+    u8x1=dict(ty="U8", cc=1, sw=32, tf="", helpers=dict(avx2=["hsum_i32x8_avx2", "hsum_epi32_avx"]),
+              four=[(17, 15), (9, 23), (29, 3), (1, 31), (31, 1), HUGE32, (20, 12), (25, 7)],
+              one=[(17, 15), (9, 23), (29, 3), (1, 31), (31, 1), HUGE32, (20, 12), (25, 7), (0, 32), (24, 8)],
+              one_per=3),
 )
 DISPATCH_CASES = [("h5", 5, 1, 6, 14), ("h6", 6, 0, 6, 12), ("h3", 3, 1, 4, 21)]      # (case, dst height, first source row, source height, precision)
 PRECISIONS = list(range(12, 22))
@@ -419,9 +426,11 @@ def horiz_module(d, isa):
     info = HORIZ[d]
     ty, cc = info["ty"], info["cc"]
     HSW = info.get("sw", 16)
-    s4, u4 = stubs_for([_fn_body(F, "horiz_convolution_four_rows")])
-    s1, u1 = stubs_for([_fn_body(F, "horiz_convolution_one_row")])
-    sb, ub = stubs_for([_fn_body(F, "horiz_convolution_four_rows"), _fn_body(F, "horiz_convolution_one_row")])
+    helpers = info.get("helpers", {}).get(isa, [])       # private helper functions of the kernel file called by both variants
+    hb = [_fn_body(F, h) for h in helpers]
+    s4, u4 = stubs_for([_fn_body(F, "horiz_convolution_four_rows")] + hb)
+    s1, u1 = stubs_for([_fn_body(F, "horiz_convolution_one_row")] + hb)
+    sb, ub = stubs_for([_fn_body(F, "horiz_convolution_four_rows"), _fn_body(F, "horiz_convolution_one_row")] + hb)
     code = HORIZ_COMMON % dict(ty=ty, d=d, cc=cc, tf=info.get("tf", "::<14>"))
     hs = []
     # --- four rows, direct
@@ -470,7 +479,7 @@ def horiz_module(d, isa):
                    bound="%s source %dx1, destination 1x1; for EVERY precision 12 ..= 21 one window of 2 taps [min(2^(p-1), 2^14) + 1, -min(2^(p-3), 2^12)] ending at the last pixel; ALL pixel values" % (ty, HSW),
                    claim="%s::%s::horiz_convolution == native for every arm 12 ..= 21 of the dispatcher (constify_imm8!) - the arm exists and instantiates the kernels with PRECISION = p (one-row variant)" % (d, isa)))
     return (dict(file=F, name="fv_k9", code=code), hs,
-            [dict(file=F, fn=f) for f in ["horiz_convolution"] + (["horiz_convolution_p"] if "tf" not in info else ["set_dst_pixel"]) + ["horiz_convolution_four_rows", "horiz_convolution_one_row"]],
+            [dict(file=F, fn=f) for f in ["horiz_convolution"] + (["horiz_convolution_p"] if "tf" not in info else ["set_dst_pixel"] if d == "u8x2" else helpers) + ["horiz_convolution_four_rows", "horiz_convolution_one_row"]],
             set(u4) | set(u1) | set(ub))
 
 
@@ -481,7 +490,7 @@ for _isa in ("sse4", "avx2"):
     _hs += _h
     _fns += _f
     _used |= set(_u)
-for _d in ("u8x4", "u8x3", "u8x2"):
+for _d in ("u8x4", "u8x3", "u8x2", "u8x1"):
     for _isa in ("sse4", "avx2"):
         _m, _h, _f, _u = horiz_module(_d, _isa)
         _mods.append(_m)
